@@ -297,3 +297,7 @@ fn encoded_len(action: &RollupDataSubmission) -> usize {
     use prost::Message as _;
     action.to_raw().encoded_len()
 }
+
+#[cfg(all(test, feature = "verif"))]
+#[path = "/verif/harness/composer/bundle_mc.rs"]
+mod verif_bundle;
